@@ -116,14 +116,17 @@ def run_side(exe, lines, label, per_case_timeout=0.02, shards=16):
     if not lines:
         return []
     os.makedirs(WORK, exist_ok=True)
-    k = max(1, min(shards, (len(lines) + 199) // 200))
-    size = (len(lines) + k - 1) // k
-    chunks = [lines[i:i + size] for i in range(0, len(lines), size)]
+    # round-robin shards: expensive cases tend to be neighbours in generation order
+    k = max(1, min(shards, (len(lines) + 3) // 4))
+    chunks = [lines[i::k] for i in range(k)]
     with ThreadPoolExecutor(max_workers=shards) as ex:
         futs = [ex.submit(_run_chunk, exe, c, i, label, per_case_timeout) for i, c in enumerate(chunks)]
-        res = []
-        for f in futs:
-            res.extend(f.result())
+        parts = [f.result() for f in futs]
+    res = [None] * len(lines)
+    for i, part in enumerate(parts):
+        for j, line in enumerate(part[:len(chunks[i])]):
+            res[i + j * k] = line
+    res = [("SKIPPED" if x is None else x) for x in res]
     return res
 
 
